@@ -26,11 +26,13 @@ uint32_t vp_fill_seed = 1;
 int vp_opt_tx_hex = 1;
 int vp_opt_tx_cap = 2000;
 int vp_opt_sleep = 1;
+int vp_fail_rc = -1;            /* what a failing int-returning getter returns: the core's convention is 0 = success */
 int vp_silent = 0;
 void (*vp_send_hook)(vp_iface *ifc, const uint8_t *frame, size_t len) = NULL;
 
 VP_TLS long vp_fault_malloc_k = 0;
-VP_TLS int vp_fault_malloc_mode = 0;
+VP_TLS int vp_fault_malloc_mode = 0;      /* 0 once, 1 from the k-th on, 2 every k-th, 3 each with probability 1/k */
+VP_TLS long vp_fault_malloc_period = 0;
 VP_TLS long vp_fault_send_k = 0;
 VP_TLS int vp_fault_send_mode = 0;
 
@@ -215,9 +217,19 @@ uint64_t vp_live_count(void) { return vp_led.live_cnt; }
 
 void *lltd_port_malloc(size_t size) {
     vp_in.allocs++;
-    if (vp_fault_malloc_k > 0) {
+    if (vp_fault_malloc_k > 0 && vp_fault_malloc_mode == 3) {
+        /* every allocation fails with probability 1/k (own PRNG stream, reproducible) */
+        static VP_TLS uint32_t fs = 0x9e3779b9u;
+        fs ^= fs << 13; fs ^= fs >> 17; fs ^= fs << 5;
+        if (fs % (uint32_t)vp_fault_malloc_k == 0) {
+            vp_led.failed++;
+            vp_logf("m %zu\n", size);
+            return NULL;
+        }
+    } else if (vp_fault_malloc_k > 0) {
         if (vp_fault_malloc_k == 1) {
             if (vp_fault_malloc_mode == 0) vp_fault_malloc_k = 0;
+            else if (vp_fault_malloc_mode == 2) vp_fault_malloc_k = vp_fault_malloc_period;      /* every k-th allocation */
             vp_led.failed++;
             vp_logf("m %zu\n", size);
             return NULL;
@@ -313,7 +325,7 @@ int lltd_port_send_frame(void *ctx, const void *frame, size_t len) {
 #define IFAIL(ctx, bit) (!(ctx) || (IFC(ctx)->failmask & (bit)))
 
 int lltd_port_get_mtu(void *ctx, size_t *out) {
-    if (IFAIL(ctx, VPF_MTU) || !out) return -1;
+    if (IFAIL(ctx, VPF_MTU) || !out) return vp_fail_rc;
     *out = IFC(ctx)->mtu;
     return 0;
 }
@@ -329,25 +341,25 @@ static vp_blob blob_dup_ledger(const vp_blob *b) {
 }
 
 int lltd_port_get_icon_image(void **out_data, size_t *out_size) {
-    if (!out_data || !out_size) return -1;
+    if (!out_data || !out_size) return vp_fail_rc;
     if ((vp_glob.failmask & VPF_ICON) || vp_glob.icon.len == 0) {
         *out_data = NULL; *out_size = 0;
-        return -1;
+        return vp_fail_rc;
     }
     vp_blob r = blob_dup_ledger(&vp_glob.icon);
-    if (!r.p) { *out_data = NULL; *out_size = 0; return -1; }
+    if (!r.p) { *out_data = NULL; *out_size = 0; return vp_fail_rc; }
     *out_data = r.p; *out_size = r.len;
     return 0;
 }
 
 int lltd_port_get_friendly_name(void **out_data, size_t *out_size) {
-    if (!out_data || !out_size) return -1;
+    if (!out_data || !out_size) return vp_fail_rc;
     if ((vp_glob.failmask & VPF_FNAME) || vp_glob.fname.len == 0) {
         *out_data = NULL; *out_size = 0;
-        return -1;
+        return vp_fail_rc;
     }
     vp_blob r = blob_dup_ledger(&vp_glob.fname);
-    if (!r.p) { *out_data = NULL; *out_size = 0; return -1; }
+    if (!r.p) { *out_data = NULL; *out_size = 0; return vp_fail_rc; }
     *out_data = r.p; *out_size = r.len;
     return 0;
 }
@@ -370,7 +382,7 @@ size_t lltd_port_get_support_url(void *dst, size_t dst_len) {
 }
 
 int lltd_port_get_upnp_uuid(uint8_t out_uuid[16]) {
-    if (vp_glob.failmask & VPF_UUID) return -1;
+    if (vp_glob.failmask & VPF_UUID) return vp_fail_rc;
     memcpy(out_uuid, vp_glob.uuid, 16);
     return 0;
 }
@@ -381,7 +393,7 @@ size_t lltd_port_get_hw_id(void *dst, size_t dst_len) {
 }
 
 int lltd_port_get_mac_address(void *ctx, ethernet_address_t *out) {
-    if (IFAIL(ctx, VPF_MAC) || !out) return -1;
+    if (IFAIL(ctx, VPF_MAC) || !out) return vp_fail_rc;
     memcpy(out->a, IFC(ctx)->mac, 6);
     return 0;
 }
@@ -391,37 +403,37 @@ uint32_t lltd_port_get_characteristics_flags(void *ctx) {
 }
 
 int lltd_port_get_if_type(void *ctx, uint32_t *out) {
-    if (IFAIL(ctx, VPF_IFTYPE) || !out) return -1;
+    if (IFAIL(ctx, VPF_IFTYPE) || !out) return vp_fail_rc;
     *out = IFC(ctx)->iftype;
     return 0;
 }
 
 int lltd_port_get_ipv4_address(void *ctx, uint32_t *out_be) {
-    if (IFAIL(ctx, VPF_IPV4) || !out_be) return -1;
+    if (IFAIL(ctx, VPF_IPV4) || !out_be) return vp_fail_rc;
     memcpy(out_be, IFC(ctx)->ipv4, 4);
     return 0;
 }
 
 int lltd_port_get_ipv6_address(void *ctx, uint8_t out[16]) {
-    if (IFAIL(ctx, VPF_IPV6) || !out) return -1;
+    if (IFAIL(ctx, VPF_IPV6) || !out) return vp_fail_rc;
     memcpy(out, IFC(ctx)->ipv6, 16);
     return 0;
 }
 
 int lltd_port_get_link_speed_100bps(void *ctx, uint32_t *out) {
-    if (IFAIL(ctx, VPF_SPEED) || !out) return -1;
+    if (IFAIL(ctx, VPF_SPEED) || !out) return vp_fail_rc;
     *out = IFC(ctx)->speed;
     return 0;
 }
 
 int lltd_port_get_wifi_mode(void *ctx, uint8_t *out) {
-    if (!ctx || !IFC(ctx)->wifi_on || IFAIL(ctx, VPF_WIFIMODE) || !out) return -1;
+    if (!ctx || !IFC(ctx)->wifi_on || IFAIL(ctx, VPF_WIFIMODE) || !out) return vp_fail_rc;
     *out = IFC(ctx)->wifi_mode;
     return 0;
 }
 
 int lltd_port_get_bssid(void *ctx, uint8_t out[6]) {
-    if (!ctx || !IFC(ctx)->wifi_on || IFAIL(ctx, VPF_BSSID) || !out) return -1;
+    if (!ctx || !IFC(ctx)->wifi_on || IFAIL(ctx, VPF_BSSID) || !out) return vp_fail_rc;
     memcpy(out, IFC(ctx)->bssid, 6);
     return 0;
 }
@@ -432,19 +444,19 @@ size_t lltd_port_get_ssid(void *ctx, void *dst, size_t dst_len) {
 }
 
 int lltd_port_get_wifi_max_rate_0_5mbps(void *ctx, uint16_t *out) {
-    if (!ctx || !IFC(ctx)->wifi_on || IFAIL(ctx, VPF_RATE) || !out) return -1;
+    if (!ctx || !IFC(ctx)->wifi_on || IFAIL(ctx, VPF_RATE) || !out) return vp_fail_rc;
     *out = IFC(ctx)->rate;
     return 0;
 }
 
 int lltd_port_get_wifi_rssi_dbm(void *ctx, int8_t *out) {
-    if (!ctx || !IFC(ctx)->wifi_on || IFAIL(ctx, VPF_RSSI) || !out) return -1;
+    if (!ctx || !IFC(ctx)->wifi_on || IFAIL(ctx, VPF_RSSI) || !out) return vp_fail_rc;
     *out = IFC(ctx)->rssi;
     return 0;
 }
 
 int lltd_port_get_wifi_phy_medium(void *ctx, uint32_t *out) {
-    if (!ctx || !IFC(ctx)->wifi_on || IFAIL(ctx, VPF_PHY) || !out) return -1;
+    if (!ctx || !IFC(ctx)->wifi_on || IFAIL(ctx, VPF_PHY) || !out) return vp_fail_rc;
     *out = IFC(ctx)->phy;
     return 0;
 }
